@@ -1025,6 +1025,17 @@ def replay(ctx, data):
         if not hits:
             print("the original object reaches the caller for", {k: case.get(k) for k in keys})
         return not hits
+    if isinstance(case, dict) and case.get("family") in FE_FAMILIES:
+        tmp = type(ctx)(ctx.pid, "quick", data.get("seed", 0))
+        format_exceptions_entries(tmp)
+        keys = ("family", "k", "entry", "output_encoding", "format_exceptions")
+        hits = [v for v in tmp.violations if v["site"] == data.get("site") and
+                all(v["case"].get(k) == case.get(k) for k in keys)]
+        for v in hits:
+            print("property violated:", v["site"], json.dumps(v["detail"])[:400])
+        if not hits:
+            print("holds for", {k: case.get(k) for k in keys})
+        return not hits
     bodies = case.get("bodies")
     if not bodies:
         print("nothing to replay in", list(data))
